@@ -195,3 +195,5 @@ def run(ctx):
     from engine.counttable import count_table
     count_table(ctx, prog)
 
+    from engine.run import borrow
+    borrow(ctx, 'C13', ['GROW-CAP', 'ITER-BOUNDS'], 'the read-chunk table grows while a header is parsed: capacity bookkeeping is memory safety of the parser')
